@@ -42,14 +42,31 @@ type C16Case struct {
 	K       int    `json:"k,omitempty"`       // how far behind / fork length
 	OnFork  bool   `json:"onFork,omitempty"`  // the renter's funds were created on its fork
 	Unconf  bool   `json:"unconf,omitempty"`  // renter inputs are unconfirmed, with parents
-	Fault   rhpc.Fault `json:"fault"`
+	// ParentMined (with Unconf and basis behind / stale): the parent that is
+	// still unconfirmed for the renter is already confirmed on the host's chain,
+	// in a block the renter has not seen; the host's final set then has no
+	// parents although the renter sent some.
+	ParentMined bool `json:"parentMined,omitempty"`
+	// ParentPooled (with Unconf): the host's pool already holds the renter's
+	// unconfirmed parent when the exchange starts.
+	ParentPooled bool `json:"parentPooled,omitempty"`
+	// SpentOnHost (confirmed funds, basis behind / stale): a block the renter
+	// has not seen already spends the outputs the renter will fund with.
+	SpentOnHost bool `json:"spentOnHost,omitempty"`
+	// StaleRevision (renew / refresh): the renter's view of the existing
+	// contract is one revision behind the host's.
+	StaleRevision bool `json:"staleRevision,omitempty"`
+	// Frag: both wallets hold many small outputs, so funding takes several
+	// inputs on each side.
+	Frag  bool       `json:"frag,omitempty"`
+	Fault rhpc.Fault `json:"fault"`
 	Reps    int    `json:"reps,omitempty"` // the attempt is repeated this many extra times while it fails
 }
 
 var (
 	c16RPCs    = []string{"form", "renew", "refresh-full", "refresh-partial"}
 	c16Bases   = []string{"same", "behind", "stale", "stale-unapplied", "unknown"}
-	c16Invalid = []string{"zero-allowance", "collateral-over-max", "allowance-below-min", "proof-too-soon", "host-underfunded", "renter-underfunded"}
+	c16Invalid = []string{"zero-allowance", "collateral-over-max", "allowance-below-min", "proof-too-soon", "host-underfunded", "renter-underfunded", "not-accepting"}
 )
 
 func exchangeOf(rpc string) string {
@@ -105,6 +122,19 @@ func genC16(t *rapid.T) C16Case {
 		}
 	}
 	c.Unconf = rapid.IntRange(0, 2).Draw(t, "unconf") == 0
+	if c.Unconf && !c.OnFork && (c.Basis == "behind" || c.Basis == "stale") {
+		c.ParentMined = rapid.IntRange(0, 1).Draw(t, "parentMined") == 0
+	}
+	if c.Unconf && !c.ParentMined && c.Basis != "unknown" {
+		c.ParentPooled = rapid.IntRange(0, 3).Draw(t, "parentPooled") == 0
+	}
+	if !c.Unconf && !c.OnFork && (c.Basis == "behind" || c.Basis == "stale") {
+		c.SpentOnHost = rapid.IntRange(0, 4).Draw(t, "spentOnHost") == 0
+	}
+	if c.RPC != "form" {
+		c.StaleRevision = rapid.IntRange(0, 7).Draw(t, "staleRevision") == 0
+	}
+	c.Frag = rapid.IntRange(0, 3).Draw(t, "frag") == 0
 	c.Fault = genFault(t, c.RPC)
 	c.Reps = rapid.IntRange(0, 3).Draw(t, "reps")
 	return c
@@ -131,6 +161,8 @@ type c16World struct {
 	settled proto4.HostSettings
 
 	poolFails  bool
+	notAccepting bool
+	parentPooled bool
 	existingID types.FileContractID
 	existing   types.V2FileContract
 }
@@ -208,6 +240,9 @@ func newC16World(c C16Case) (w *c16World, err error) {
 	// so the host exists before the first block
 	w.hw = &rhpc.RecWallet{Wallet: w.H.W}
 	w.settled = rhpc.DefaultSettings(w.H.Addr())
+	if c.Invalid == "not-accepting" {
+		w.notAccepting = true // switched off after the set-up formation
+	}
 	if c.Invalid == "host-underfunded" {
 		// the host accepts a collateral it cannot fund
 		w.settled.MaxCollateral = types.Siacoins(4000000)
@@ -228,6 +263,24 @@ func newC16World(c C16Case) (w *c16World, err error) {
 		return
 	}
 	prefix = append(prefix, bs...)
+	if err = w.syncAll(); err != nil {
+		return
+	}
+	if c.Frag {
+		// both wallets are split into many small outputs (the rest is burnt)
+		ht, e := splitWallet(w.H, c16HostKey, cs, 14, types.Siacoins(25))
+		if e != nil {
+			return nil, e
+		}
+		rt, e := splitWallet(w.R, c16RenterKey, cs, 14, types.Siacoins(40))
+		if e != nil {
+			return nil, e
+		}
+		if cs, bs, err = w.grow(cs, 1, rhpc.VoidAddr, []types.V2Transaction{ht, rt}, all...); err != nil {
+			return
+		}
+		prefix = append(prefix, bs...)
+	}
 	if err = w.syncAll(); err != nil {
 		return
 	}
@@ -313,6 +366,26 @@ func newC16World(c C16Case) (w *c16World, err error) {
 		}
 	}
 
+	if c.RPC != "form" && c.StaleRevision {
+		// the host moves on by one revision the renter never learns about
+		var st proto4.HostSettings
+		if st, err = rhp4.RPCSettings(ctx, w.host.T); err != nil {
+			return nil, fmt.Errorf("settings: %w", err)
+		}
+		w.host.T.WaitIdle(10 * time.Second)
+		_ = st
+		deps := []proto4.AccountDeposit{{Account: proto4.Account(c16ContractKey.PublicKey()), Amount: types.Siacoins(1)}}
+		if _, err = rhp4.RPCFundAccounts(ctx, w.host.T, w.R.CM.TipState(), w.signer, rhp4.ContractRevision{ID: w.existingID, Revision: w.existing}, deps); err != nil {
+			return nil, fmt.Errorf("setup fund accounts: %w", err)
+		}
+		w.host.T.WaitIdle(10 * time.Second)
+	}
+	if w.notAccepting {
+		st := w.settled
+		st.AcceptingContracts = false
+		w.host.Settings.Update(st)
+	}
+
 	// basis relation
 	k := 1 + mod(c.K-1, 3)
 	fork := func(parent consensus.State, n int, to ...*rhpc.Node) error {
@@ -330,14 +403,40 @@ func newC16World(c C16Case) (w *c16World, err error) {
 		_, _, e := w.grow(parent, n, rhpc.VoidAddr, txns, to...)
 		return e
 	}
+	// the renter's pooled parent that the host's chain confirms in a block the
+	// renter never sees
+	var hostOnly []types.V2Transaction
+	if !c.Unconf && c.SpentOnHost && !c.OnFork && (c.Basis == "behind" || c.Basis == "stale") {
+		// the host's chain spends the renter's outputs in a block the renter
+		// never sees; the renter's pool does not know the spend either
+		txn, ok, e := w.sweepRenter(cs)
+		if e != nil {
+			return nil, e
+		}
+		if ok {
+			hostOnly = []types.V2Transaction{txn}
+		}
+	}
+	if c.Unconf && c.ParentMined && !c.OnFork && (c.Basis == "behind" || c.Basis == "stale") {
+		txn, ok, e := w.sweepRenter(cs)
+		if e != nil {
+			return nil, e
+		}
+		if ok {
+			if _, e := w.R.CM.AddV2PoolTransactions(w.R.CM.Tip(), []types.V2Transaction{txn}); e != nil {
+				return nil, fmt.Errorf("renter pool rejected its own sweep: %w", e)
+			}
+			hostOnly = []types.V2Transaction{txn}
+		}
+	}
 	switch c.Basis {
 	case "same", "":
 	case "behind":
-		_, _, err = w.grow(cs, k, rhpc.VoidAddr, nil, w.H.Node, w.I)
+		_, _, err = w.grow(cs, k, rhpc.VoidAddr, hostOnly, w.H.Node, w.I)
 	case "stale":
 		// the host followed branch A, then reorganised to the longer branch B
 		if err = fork(cs, k, w.H.Node, w.R.Node); err == nil {
-			_, _, err = w.grow(cs, k+1, rhpc.VoidAddr, nil, w.I, w.H.Node)
+			_, _, err = w.grow(cs, k+1, rhpc.VoidAddr, hostOnly, w.I, w.H.Node)
 		}
 	case "stale-unapplied":
 		// the host stored the renter's branch but never applied it
@@ -359,7 +458,7 @@ func newC16World(c C16Case) (w *c16World, err error) {
 		return nil, fmt.Errorf("independent node is not on the host's chain")
 	}
 
-	if c.Unconf {
+	if c.Unconf && hostOnly == nil {
 		// the renter's confirmed outputs are all spent by a pooled transaction
 		// that pays the renter, so funding must use unconfirmed outputs
 		txn, ok, e := w.sweepRenter(w.R.CM.TipState())
@@ -369,6 +468,13 @@ func newC16World(c C16Case) (w *c16World, err error) {
 		if ok {
 			if _, e := w.R.CM.AddV2PoolTransactions(w.R.CM.Tip(), []types.V2Transaction{txn}); e != nil {
 				return nil, fmt.Errorf("renter pool rejected its own sweep: %w", e)
+			}
+			if c.ParentPooled && c.Basis != "unknown" && !c.OnFork {
+				// the host has already seen that transaction
+				if _, e := w.H.CM.AddV2PoolTransactions(w.R.CM.Tip(), []types.V2Transaction{txn}); e != nil {
+					return nil, fmt.Errorf("host pool rejected the renter's sweep: %w", e)
+				}
+				w.parentPooled = true
 			}
 		}
 	}
@@ -380,6 +486,37 @@ func newC16World(c C16Case) (w *c16World, err error) {
 	w.prices = st.Prices
 	w.host.T.WaitIdle(10 * time.Second)
 	return w, nil
+}
+
+// splitWallet builds a signed transaction that spends every spendable output
+// of p into n outputs of `each` to p's address and burns the rest.
+func splitWallet(p *rhpc.Party, key types.PrivateKey, cs consensus.State, n int, each types.Currency) (types.V2Transaction, error) {
+	if err := p.Sync(); err != nil {
+		return types.V2Transaction{}, err
+	}
+	outs, err := p.W.SpendableOutputs()
+	if err != nil || len(outs) == 0 {
+		return types.V2Transaction{}, fmt.Errorf("%s has nothing to split: %v", p.Name, err)
+	}
+	var txn types.V2Transaction
+	var sum types.Currency
+	for _, o := range outs {
+		txn.SiacoinInputs = append(txn.SiacoinInputs, types.V2SiacoinInput{Parent: o.Copy()})
+		sum = sum.Add(o.SiacoinOutput.Value)
+	}
+	txn.MinerFee = types.Siacoins(1)
+	rest := sum.Sub(txn.MinerFee)
+	for i := 0; i < n; i++ {
+		txn.SiacoinOutputs = append(txn.SiacoinOutputs, types.SiacoinOutput{Address: p.Addr(), Value: each})
+		rest = rest.Sub(each)
+	}
+	txn.SiacoinOutputs = append(txn.SiacoinOutputs, types.SiacoinOutput{Address: rhpc.VoidAddr, Value: rest})
+	policy := p.W.SpendPolicy()
+	sh := cs.InputSigHash(txn)
+	for i := range txn.SiacoinInputs {
+		txn.SiacoinInputs[i].SatisfiedPolicy = types.SatisfiedPolicy{Policy: policy, Signatures: []types.Signature{key.SignHash(sh)}}
+	}
+	return txn, nil
 }
 
 // sweepRenter builds a signed transaction that spends every confirmed, mature
@@ -643,6 +780,23 @@ func runC16(c C16Case, cs *kit.CaseStats) error {
 	if c.OnFork {
 		cs.Class("renter-funds-on-fork")
 	}
+	if c.Unconf && c.ParentMined && !c.OnFork && (c.Basis == "behind" || c.Basis == "stale") {
+		cs.Class("renter-parent-already-confirmed-on-host-chain")
+	}
+	if w.parentPooled {
+		cs.Class("renter-parent-already-in-host-pool")
+	}
+	spentOnHost := !c.Unconf && c.SpentOnHost && !c.OnFork && (c.Basis == "behind" || c.Basis == "stale")
+	if spentOnHost {
+		cs.Class("renter-funds-already-spent-on-host-chain")
+	}
+	staleRev := c.RPC != "form" && c.StaleRevision
+	if staleRev {
+		cs.Class("renter-view-of-contract-one-revision-behind")
+	}
+	if c.Frag {
+		cs.Class("wallets-fragmented")
+	}
 	if c.RPC == "form" {
 		c.Existing = ""
 	}
@@ -733,6 +887,12 @@ func runC16(c C16Case, cs *kit.CaseStats) error {
 			cs.Class("outcome=success")
 			if c.Invalid != "" {
 				return fmt.Errorf("%s succeeded although the parameters (%s) must be rejected by validation", head, c.Invalid)
+			}
+			if spentOnHost {
+				return fmt.Errorf("%s succeeded although the renter's funds are already spent on the host's chain", head)
+			}
+			if staleRev {
+				return fmt.Errorf("%s succeeded although the renter signed for a revision the host has moved past", head)
 			}
 			if committed != 1 {
 				return fmt.Errorf("%s returned nil but the host recorded %d contracts for it", head, committed)
@@ -829,7 +989,7 @@ func runC16(c C16Case, cs *kit.CaseStats) error {
 			if d := renterBefore.Diff(renterAfter); d != "" {
 				return fmt.Errorf("%s failed (%v) and no contract was recorded, but the renter's wallet did not return to its pre-attempt state: %s", head, callErr, d)
 			}
-			if (f.Kind == "" || f.Kind == "advance") && !followUp && c.Invalid == "" && c.Existing == "" && (c.Basis == "same" || c.Basis == "behind" || (c.Basis == "stale" && !c.OnFork)) {
+			if (f.Kind == "" || f.Kind == "advance") && !followUp && !spentOnHost && !staleRev && c.Invalid == "" && c.Existing == "" && (c.Basis == "same" || c.Basis == "behind" || (c.Basis == "stale" && !c.OnFork)) {
 				// nothing stands in the way of this exchange
 				return fmt.Errorf("non-vacuity: %s without any fault failed: %v", head, callErr)
 			}
@@ -860,7 +1020,7 @@ func TestC16(t *testing.T) { c16Prop.Main(t) }
 // family, dial failure, none) on the same tip, and every basis relation x
 // funding mode without a fault and with the cut after the host funded.
 func TestC16Enum(t *testing.T) {
-	d := kit.NewDirect(t, "C16", "enumeration: every RPC x {no fault, dial failure, renter pool failure, cut at each boundary of each side, every corruption family of each message} on the same tip with confirmed inputs; every RPC x every basis relation x {confirmed, unconfirmed, funds on fork} x {no fault, cut before the renter's signatures, bogus basis}; every RPC x every parameter rejection; every RPC x {same, behind, stale} x {confirmed, unconfirmed} x host chain advancing under the request / the renter's signatures; every non-form RPC x {unmined, reorged} existing contract x {same, behind, unknown} x {no fault, cut} with host cost > 0", c16Assumptions...)
+	d := kit.NewDirect(t, "C16", "enumeration: every RPC x {no fault, dial failure, renter pool failure, cut at each boundary of each side, every corruption family of each message} on the same tip with confirmed inputs; every RPC x every basis relation x {confirmed, unconfirmed, funds on fork} x {no fault, cut before the renter's signatures, bogus basis}; every RPC x every parameter rejection; every RPC x {same, behind, stale} x {confirmed, unconfirmed} x host chain advancing under the request / the renter's signatures; every RPC x {behind, stale} x unconfirmed funds whose parent the host's chain already confirmed; every non-form RPC x {unmined, reorged} existing contract x {same, behind, unknown} x {no fault, cut} with host cost > 0", c16Assumptions...)
 	d.St.Exhaustive = true
 	defer d.Done()
 	all := os.Getenv("VERIF_C16_ALL") != ""
@@ -929,6 +1089,40 @@ func TestC16Enum(t *testing.T) {
 					c.Basis, c.K, c.Unconf, c.Coll = b, 1, unconf, 90
 					c.Fault = rhpc.Fault{Kind: "advance", Dir: rhpc.R2H, Index: idx, A: 2}
 					run(c)
+				}
+			}
+		}
+		for _, b := range []string{"behind", "stale"} {
+			for k := 1; k <= 2; k++ {
+				for _, f := range []rhpc.Fault{{}, {Kind: "cut", Dir: rhpc.R2H, Index: 1}, {Kind: "advance", Dir: rhpc.R2H, Index: 1, A: 1}} {
+					c := base
+					c.Basis, c.K, c.Unconf, c.ParentMined, c.Coll, c.Fault = b, k, true, true, 90, f
+					run(c)
+				}
+			}
+		}
+		for _, b := range []string{"same", "behind", "stale"} {
+			for _, f := range []rhpc.Fault{{}, {Kind: "cut", Dir: rhpc.R2H, Index: 1}} {
+				c := base
+				c.Basis, c.K, c.Coll, c.Fault, c.Reps = b, 1, 90, f, 2
+				c1 := c
+				c1.Unconf, c1.ParentPooled = true, true
+				run(c1)
+				c2 := c
+				c2.Frag = true
+				run(c2)
+				c3 := c
+				c3.Frag, c3.Unconf = true, true
+				run(c3)
+				if b != "same" {
+					c4 := c
+					c4.SpentOnHost = true
+					run(c4)
+				}
+				if rpc != "form" {
+					c5 := c
+					c5.StaleRevision = true
+					run(c5)
 				}
 			}
 		}
